@@ -275,6 +275,12 @@ type ZooBad struct {
 	Ch chan int
 }
 
+// ZooErr fails to marshal with a caller-chosen error text (which the encoders must still turn
+// into a valid JSON string).
+type ZooErr struct{ Msg string }
+
+func (z ZooErr) MarshalJSON() ([]byte, error) { return nil, errors.New(z.Msg) }
+
 // zoo draws a value for Reflect. forAny: the value is passed to log.Any, which dispatches
 // []int, []float64, string, ... to typed constructors - those members are left out so that the
 // expectation really is "the default (reflect) arm".
@@ -354,6 +360,10 @@ func (g *fgen) zoo(forAny bool) (any, EV, string) {
 		return func() {}, EV{K: 'x'}, "func() (unmarshallable)"
 	case 11:
 		g.st.Unmarshallable++
+		if rapid.Bool().Draw(g.t, "zooErrText") {
+			msg := g.str("zerr")
+			return ZooErr{Msg: msg}, EV{K: 'x'}, fmt.Sprintf("ZooErr{%q} (MarshalJSON fails with that text)", msg)
+		}
 		return ZooBad{}, EV{K: 'x'}, "struct{chan} (unmarshallable)"
 	case 12:
 		s := g.str("zstr")
